@@ -419,8 +419,9 @@ def oracle_header(ctx, header, want_pairs, payload, where, key=None):
 # ------------------------------------------------------------------ http paths (implicit routing)
 
 
-def gen_http(r, fields, nvars=None):
-    """primary http rule: 1..3 variables over distinct fields, literal segments around them"""
+def gen_http(r, fields, nvars=None, stem=None):
+    """an http path with its verb: 0..3 variables over distinct fields, literal segments around them (`stem`: a literal
+    segment after `v1` that keeps the paths of one method's bindings apart)"""
     nvars = r.randint(1, 3) if nvars is None else nvars
     nvars = min(nvars, len(fields))
     chosen = []
@@ -429,7 +430,7 @@ def gen_http(r, fields, nvars=None):
         f = r.pick(pool)
         pool.remove(f)
         chosen.append(f)
-    parts = [["lit", "v1"]]
+    parts = [["lit", "v1"]] + ([["lit", stem]] if stem else [])
     for i, f in enumerate(chosen):
         last = i == nvars - 1
         k = r.random()
@@ -459,12 +460,41 @@ STD_VERBS = ["get", "post", "put", "patch", "delete"]
 CUSTOM_KINDS = ["HEAD", "OPTIONS", "LIST"]
 
 
-def rule_json(h, binding=None):
+def model_verb(v):
+    return v if v in STD_VERBS else "custom:" + v
+
+
+def rule_json(h, bindings=()):
     """the google.api.http rule as written, for the model (`HttpRule`): member of the `pattern` oneof, path, bindings"""
     if not h:
         return None
-    return {"verb": h["verb"] if h["verb"] in STD_VERBS else "custom:" + h["verb"], "path": render_http(h),
-            "bindings": [["get", binding]] if binding else []}
+    return {"verb": model_verb(h["verb"]), "path": render_http(h), "bindings": [[model_verb(v), p] for v, p in bindings]}
+
+
+def bindings_of(spec):
+    """the additional bindings of the method's http rule as (verb, path): `bindings` (structured) and the older
+    `binding` (one get path)"""
+    out = [(b["verb"], render_http(b)) for b in spec.get("bindings") or []]
+    if spec.get("binding"):
+        out.append(("get", spec["binding"]))
+    return out if spec.get("http") else []
+
+
+def binding_vars(spec):
+    """variables that occur in additional bindings (never routed on; the request still has values for them)"""
+    out = []
+    for b in (spec.get("bindings") or []) if spec.get("http") else []:
+        out += [v for v in http_vars(b) if v not in out]
+    return out
+
+
+BIND_FIELDS = TOP + KW_TOP + ["book.name", "book.shelf.name", "book.class"]
+
+
+def gen_bindings(r, spec):
+    """1..2 additional bindings whose paths have 0..3 variables drawn without regard to the primary path's: other,
+    more, fewer or the same variables, every verb incl. custom"""
+    return [gen_http(r, BIND_FIELDS, nvars=r.pick([0, 1, 1, 1, 2, 2, 3]), stem=f"alt{j}") for j in range(r.randint(1, 2))]
 
 
 def render_http(h):
@@ -539,14 +569,15 @@ def gen_spec(r, idx, kind=None):
         spec["http"] = gen_http(r, TOP + NESTED + KW_TOP + list(INTS))
     elif kind == "empty-rule":      # annotation without parameters: AIP-4222 = send nothing, even with http variables
         spec["http"] = gen_http(r, TOP + NESTED + KW_TOP + list(INTS)) if r.maybe(0.7) else None
-    if spec["http"] and http_vars(spec["http"]) and r.maybe(0.3):
-        # an additional binding with another variable: implicit routing looks at the PRIMARY path only
-        other = [f for f in TOP if f not in http_vars(spec["http"])]
-        spec["binding"] = "/v1/alt/{" + r.pick(other) + "=" + r.pick(COLL) + "/*}"
-    elif kind == "explicit":
+    if kind == "explicit":
         spec["http"] = {"verb": "post", "parts": [["lit", "v1"], ["lit", f"m{idx}"]], "suffix": ":call"} if r.maybe(0.8) else None
     elif kind == "none":
-        spec["http"] = {"verb": r.pick(["get", "post"]), "parts": [["lit", "v1"], ["lit", f"m{idx}"]], "suffix": ""} if r.maybe(0.7) else None
+        # no annotation and a primary path WITHOUT variables: no header, whatever the additional bindings say
+        spec["http"] = {"verb": r.pick(["get", "post"] + CUSTOM_KINDS[:1]), "parts": [["lit", "v1"], ["lit", f"m{idx}"]],
+                        "suffix": r.pick(["", "", ":search"])} if r.maybe(0.8) else None
+    # additional bindings: implicit routing looks at the PRIMARY path only (0, 1, 2, 3 variables there x 0..3 here)
+    if spec["http"] and r.maybe({"none": 0.7, "explicit": 0.25}.get(kind, 0.45)):
+        spec["bindings"] = gen_bindings(r, spec)
     return spec
 
 
@@ -556,7 +587,7 @@ def spec_fields(spec):
         if p["field"] not in fs:
             fs.append(p["field"])
     if spec["http"]:
-        for v in http_vars(spec["http"]):
+        for v in http_vars(spec["http"]) + binding_vars(spec):
             if v not in fs:
                 fs.append(v)
     return fs
@@ -567,8 +598,8 @@ def templates_for_field(spec, f):
     for p in spec["params"] or []:
         if p["field"] == f and p["segs"] is not None:
             out.append([t for t, _ in flat_toks(p["segs"])])
-    if spec["http"]:
-        t = var_toks(spec["http"], f)
+    for h in ([spec["http"]] + list(spec.get("bindings") or [])) if spec["http"] else []:
+        t = var_toks(h, f)
         if t is not None:
             out.append(t)
     return out
@@ -777,7 +808,7 @@ def build_files(specs, layout=None):
             routing = [(p["field"], render_template(p["segs"]) if p["segs"] is not None else None) for p in s["params"]]
         m = svc.method(s["name"], rq, rs, http=http, body=body, routing=routing,
                        cs=s.get("stream") == "cs", ss=s.get("stream") == "ss",
-                       bindings=[("get", s["binding"], None)] if s.get("binding") and http else ())
+                       bindings=[(v, p, "*" if v in ("post", "put", "patch") else None) for v, p in bindings_of(s)])
         if s["params"] is not None and not s["params"]:
             from google.api import routing_pb2
             m.options.Extensions[routing_pb2.routing].SetInParent()
@@ -886,12 +917,12 @@ def _run_api(ctx, r, specs, label, ncalls, requests, templates, layout, files, u
             ops.append({"op": "c06.explicit", "params": [{"field": p["field"], "segs": p["segs"]} for p in s["params"]],
                         "client_streaming": cs, "requests": [model_request(q) for q in reqs]})
         else:
-            ops.append({"op": "c06.implicit", "rule": rule_json(s["http"], s.get("binding")), "client_streaming": cs,
+            ops.append({"op": "c06.implicit", "rule": rule_json(s["http"], bindings_of(s)), "client_streaming": cs,
                         "requests": [model_request(q) for q in reqs]})
     model = ctx.driver.ask(ops)
     for (s, reqs, _), mo in zip(plans, model):
         m = svcs[svc_index(s, layout)].methods[s["name"]]
-        ctx.count("method_kind", s["kind"] + (":" + s["stream"] if s.get("stream") else "") + ("+binding" if s.get("binding") else "") +
+        ctx.count("method_kind", s["kind"] + (":" + s["stream"] if s.get("stream") else "") + ("+binding" if bindings_of(s) else "") +
                   ("+custom-verb" if s["http"] and s["http"]["verb"] not in STD_VERBS else ""))
         ctx.traces += 1
         if s["params"] is not None:
@@ -1064,23 +1095,26 @@ def check_field_headers(ctx, r, nmethods):
     svc = f.service("Library")
     metas = []
     for i in range(nmethods):
-        h = gen_http(r, TOP + KW_TOP + NESTED + ["book.class", "import.name"])
+        h = gen_http(r, TOP + KW_TOP + NESTED + ["book.class", "import.name"], nvars=r.pick([0, 1, 1, 2, 3]), stem=f"m{i}")
         verb = r.pick(STD_VERBS + CUSTOM_KINDS[:2])
         h["verb"] = verb
-        h["binding"] = "/v1/{resource=other/*}" if r.maybe(0.3) else None
-        svc.method(f"M{i}", rq, rs, http=(verb, render_http(h)), bindings=[("get", h["binding"], None)] if h["binding"] else ())
+        h["bindings"] = [(b["verb"], render_http(b)) for b in gen_bindings(r, None)] if r.maybe(0.5) else []
+        if r.maybe(0.2):
+            h["bindings"].append(("get", "/v1/{resource=other/*}"))
+        svc.method(f"M{i}", rq, rs, http=(verb, render_http(h)), bindings=[(v, p, None) for v, p in h["bindings"]])
         metas.append(h)
     api, _ = genrun.build_api(apigen.request([f], "transport=grpc", check=False))
     svc_ = api.services[f"{PKG}.Library"]
     ops = []
     for h in metas:
-        ops.append({"op": "c06.implicit", "rule": rule_json(h, h["binding"]), "requests": []})
+        ops.append({"op": "c06.implicit", "rule": rule_json(h, h["bindings"]), "requests": []})
     for i, (h, mo) in enumerate(zip(metas, ctx.driver.ask(ops))):
         m = svc_.methods[f"M{i}"]
         impl_h = [x.raw for x in m.field_headers]
         impl_a = [x.disambiguated for x in m.field_headers]
         ctx.case({"http": render_http(h), "field_headers": impl_h}, distinct_key=["http", h["verb"], render_http(h)])
         ctx.count("http_vars", len(impl_h))
+        ctx.count("primary_x_binding_vars", f"p{len(http_vars(h))}/" + ("none" if not h["bindings"] else "b" + "+".join(str(p.count("{")) for _, p in h["bindings"])))
         ctx.count("http_verb", h["verb"] if h["verb"] in STD_VERBS else "custom")
         # the six slots `field_headers` looks at, read off the real option message
         from google.api import annotations_pb2
@@ -1252,16 +1286,29 @@ PROBE_SPECS = [
      "http": {"verb": "post", "parts": [["lit", "v1"], ["lit", "m1"]], "suffix": ":call"}},
     {"name": "Method2", "kind": "implicit", "stream": None, "binding": "/v1/alt/{parent=shelves/*}", "params": None,
      "http": {"verb": "HEAD", "parts": [["lit", "v1"], ["var", "name", [["lit", "shelves"], ["star"]]]], "suffix": ""}},
+    # a primary path WITHOUT variables, additional bindings with one and two: no header on any transport
+    {"name": "Method3", "kind": "none", "stream": None, "binding": None, "params": None,
+     "http": {"verb": "post", "parts": [["lit", "v1"], ["lit", "books"]], "suffix": ":search"},
+     "bindings": [{"verb": "get", "parts": [["lit", "v1"], ["var", "parent", [["lit", "shelves"], ["star"]]], ["lit", "books"]], "suffix": ":search"},
+                  {"verb": "LIST", "parts": [["lit", "v1"], ["lit", "alt1"], ["var", "name", None], ["var", "book.name", [["star"]]]], "suffix": ""}]},
+    # one variable in the primary path, MORE (and other) variables in the additional binding
+    {"name": "Method4", "kind": "implicit", "stream": None, "binding": None, "params": None,
+     "http": {"verb": "get", "parts": [["lit", "v1"], ["var", "name", [["lit", "shelves"], ["star"]]]], "suffix": ""},
+     "bindings": [{"verb": "get", "parts": [["lit", "v1"], ["lit", "alt0"], ["var", "parent", [["lit", "shelves"], ["star"]]], ["var", "name", [["lit", "shelves"], ["star"]]]], "suffix": ""}]},
 ]
 PROBE_REQUESTS = {"Method1": [{"name": "projects/p/x", "parent": ""}, {"name": "projects/p", "parent": "profiles/q r"}, {"name": "nope", "parent": ""}],
-                  "Method2": [{"name": "shelves/s 1"}, {"name": ""}]}
+                  "Method2": [{"name": "shelves/s 1"}, {"name": ""}],
+                  "Method3": [{"parent": "shelves/1", "name": "n", "book.name": "b"}, {"parent": "", "name": "", "book.name": ""}],
+                  "Method4": [{"name": "shelves/s1", "parent": "shelves/p"}, {"name": "shelves/s2", "parent": ""}]}
 
 
 def run_probe_api(ctx, r):
     """one fixed API per run: the point the hypothesis of `transports_agree_on_routing_header` excludes
     (`caller_supplied_header_counterexample`: the caller passes an own x-goog-request-params pair), run through the
     emitted clients of a service in a sub-package (sync / asyncio gRPC, REST, asyncio REST) next to ordinary calls of
-    the same clients (explicit rule with two parameters sharing a key; custom verb with an additional binding)"""
+    the same clients (explicit rule with two parameters sharing a key; custom verb with an additional binding; a
+    variable-free primary path next to additional bindings that have variables; fewer variables in the primary path
+    than in the binding)"""
     run_api(ctx, r, copy.deepcopy(PROBE_SPECS), "probe", requests=copy.deepcopy(PROBE_REQUESTS),
             layout=dict(FLAT, kind="svc-sub", svc="admin"), rest_async=True, caller_header=0.5)
     ctx.count("stream", "probe-api")
